@@ -1,6 +1,7 @@
 package rules
 
 import (
+	"go/types"
 	"net/url"
 	"sort"
 )
@@ -43,4 +44,12 @@ func (x *c20SX) valuesEncode(m c20V) (c20V, bool) {
 		out = append(out, e.v...)
 	}
 	return c20StrV(out), true
+}
+
+// formatFloatFn returns strconv.FormatFloat given another function of package strconv.
+func (x *c20SX) formatFloatFn(fn *types.Func) *types.Func {
+	if f, ok := fn.Pkg().Scope().Lookup("FormatFloat").(*types.Func); ok {
+		return f
+	}
+	return fn
 }
